@@ -110,8 +110,11 @@ class FrameSetup(object):
             E.force_summary = True
         E.debug_loops = bool(os.environ.get('LLTD_DEBUG_LOOPS'))
         mo = self.soff('mapper_real')
+        rcm = ('sym', 'rc.mac', -(1 << 31), (1 << 31) - 1)
         E.tracked_preds = {'M': [(('in', 'st', mo + i), ('in', 'frame', 24 + i)) for i in range(6)],
-                           'B': [(('in', 'frame', 24 + i), ('in', 'frame', 6 + i)) for i in range(6)]}
+                           'B': [(('in', 'frame', 24 + i), ('in', 'frame', 6 + i)) for i in range(6)],
+                           # U: the frame's real destination is this station (own address as the port supplies it)
+                           'U': [(('in', 'frame', 18 + i), ('sel', rcm, ('in', 'port.mac', i), ZERO)) for i in range(6)]}
 
         def setup(I, st):
             a = self.args(I, st)
